@@ -82,7 +82,7 @@ vars == <<kind0, x, present, rqSlot, ttSlot, task, nT, cbq, op, quiet, acted, pc
 Dir(t) == IF kind0[t] = "uq" THEN "up" ELSE "down"
 
 \* marker in `acted` (numbers, so that TLC can keep them in one set with transfer ids; transfer ids are < 100)
-Told(t, f) == IF f = "remQ" THEN 100 + t ELSE 200 + t
+Told(t, f) == IF f = "remQ" THEN 100 + t ELSE IF f = "piq" THEN 200 + t ELSE 300 + t
 
 NoTask == [t |-> 0, kind |-> "none", pc |-> "none", canc |-> FALSE]
 IdleOp == [o |-> "none", pc |-> "idle", ok |-> FALSE, waits |-> {}]
@@ -340,15 +340,17 @@ PeerOffer(t) ==
             /\ UNCHANGED <<x, task, nT, ttSlot, quiet>>
   /\ UNCHANGED <<kind0, present, rqSlot, cbq, op>>
 
-\* manager.py _on_peer_transfer_queue_failed: the peer refuses to queue download t -> state.fail(reason).  While an
-\* abort holds the state lock the handler waits and is then dispatched on ABORTED, where fail is refused.
-\* (Scope: not sent for a PAUSED download - PAUSED -> FAILED is a documented edge the peer may take.)
-PeerQueueFailed(t) ==
+\* manager.py _on_peer_transfer_queue_failed: the peer refuses to queue download t -> state.fail(reason).  The reason
+\* is a free-form protocol string; r = "empty" is the legal boundary value '' - still a reason: a download that
+\* FAILED with a reason is never retried.  While an abort holds the state lock the handler waits and is then
+\* dispatched on ABORTED, where fail is refused.  PAUSED -> FAILED is a documented edge: a paused download is
+\* failed by the peer's word (Told(t, "fail")) - and stays quiet: a queue failure is no re-queue.
+PeerQueueFailed(t, r) ==
   /\ PeerFrame
-  /\ Dir(t) = "down" /\ present[t] /\ x[t].st # "PAUSED" /\ op[t].o # "pause"
+  /\ Dir(t) = "down" /\ present[t]
   /\ pconn' = TRUE
   /\ x' = IF Locked(t) THEN x ELSE [x EXCEPT ![t] = DoFail(x[t], TRUE)]
-  /\ acted' = {}
+  /\ acted' = {Told(t, "fail")}
   /\ UNCHANGED <<kind0, present, rqSlot, ttSlot, task, nT, cbq, op, quiet>>
 
 \* manager.py _on_peer_transfer_queue for an upload we already have: FAILED / COMPLETE are re-queued by the peer
@@ -562,7 +564,8 @@ Next ==
   \/ DoneCallback
   \/ \E k \in TaskIds : CancelDelivered(k)
   \/ \E t \in T, kd \in {"rq", "init"}, i \in 1..2, res \in {"ok", "fail"} : Direct(t, kd, i, res) \/ Indirect(t, kd, i, res)
-  \/ \E t \in T : PeerOffer(t) \/ PeerQueueFailed(t) \/ PeerQueue(t)
+  \/ \E t \in T : PeerOffer(t) \/ PeerQueue(t)
+  \/ \E t \in T, r \in {"text", "empty"} : PeerQueueFailed(t, r)
   \/ \E t \in T, f \in {"remQ", "piq"} : PeerTells(t, f)
   \/ PConnLost
   \/ \E t \in T, i \in 1..2, stage \in {"ndirect", "nindirect"}, res \in {"ok", "fail"} : Notify(t, i, stage, res)
@@ -582,7 +585,7 @@ TypeOK ==
   /\ \A t \in T : rqSlot[t] \in 0..MaxTasks /\ ttSlot[t] \in 0..MaxTasks
   /\ nT \in 0..MaxTasks
   /\ \A k \in TaskIds : (task[k].pc = "none") = (k > nT)
-  /\ acted \subseteq T \cup {Told(t, f) : t \in T, f \in {"remQ", "piq"}}
+  /\ acted \subseteq T \cup {Told(t, f) : t \in T, f \in {"remQ", "piq", "fail"}}
 
 \* at any time at most one background negotiation per transfer and kind is in flight
 AtMostOneNegotiation == \A t \in T : Cardinality(LiveRQ(t)) <= 1 /\ Cardinality(LiveTT(t)) <= 1
@@ -601,5 +604,8 @@ QuietStep == \A t \in T : (quiet[t] # 0 /\ quiet'[t] = quiet[t]) =>
                 /\ t \notin acted'
                 /\ \/ x'[t] = x[t]
                    \/ \E f \in {"remQ", "piq"} : Told(t, f) \in acted' /\ SameExcept(x'[t], x[t], f)
+                   \/ /\ Told(t, "fail") \in acted' /\ x[t].st = "PAUSED" /\ x'[t].st = "FAILED"
+                      /\ DOMAIN x'[t] = DOMAIN x[t]
+                      /\ \A g \in DOMAIN x[t] \ {"st", "failR"} : x'[t][g] = x[t][g]
 QuietAfterReturn == [][QuietStep]_vars
 =============================================================================
